@@ -110,6 +110,7 @@ def run(ctx):
 def e2e(ctx):
     from joserfc import jws, rfc7797
     rng = ctx.rng
+    _batch = []
     n = 40 if ctx.tier == "quick" else 400
     vcases = []
     for _ in range(n):
@@ -157,7 +158,8 @@ def e2e(ctx):
             if not want and impl[0] == "ok":
                 return "a token whose header violates HeaderOK was accepted"
             return None
-        J.run_verify_cases(ctx, "header-consume", [c], check_c01=False, expect=expect, prop="C15")
+        c.expect = expect
+        _batch.append(c)
         # producing
         key = J.make_key(kn, private=True)
         try:
@@ -179,6 +181,7 @@ def e2e(ctx):
             ctx.report(f"producing side: header {'acceptable' if wantp else 'violating HeaderOK'} but serialize returned {produced}",
                        {"kind": kind, "header": repr(h), "strict": strict, "extra": extra, "produced": produced},
                        f"produce:{kind}:{'accepts-bad' if not wantp else 'rejects-good'}")
+    J.run_verify_cases(ctx, "header-consume", _batch, check_c01=False, prop="C15")
 
 
 def jws_c7797(rng, alg, kn, priv, header):
